@@ -66,6 +66,13 @@ func run(r *mon.Run) {
 	}
 	rsList := []int{1, 2, 16, 17, 100, 4095, 4096, 16383, 16384}
 	sharedSigners := map[*gen.Identity]*signedexchange.Signer{}
+	type retained struct {
+		i    int
+		desc string
+		e    *signedexchange.Exchange
+		file []byte
+	}
+	var prev *retained
 	for i := 0; i < n; i++ {
 		if !r.Mine(i) {
 			continue
@@ -157,6 +164,23 @@ func run(r *mon.Run) {
 		if p || err != nil {
 			bad("SIGN-FAILED", fmt.Sprintf("the library refused / panicked on a valid exchange: %v %v", err, pv))
 			continue
+		}
+		// the exchange built in the PREVIOUS iteration was kept: building (MI-encoding, signing) this one must not have
+		// touched it - it still serializes to the same bytes
+		if prev != nil {
+			var pb bytes.Buffer
+			if werr := prev.e.Write(&pb); werr != nil || !bytes.Equal(pb.Bytes(), prev.file) {
+				r.Eval("RETAINED-EXCHANGE-CHANGED")
+				r.Violation(fmt.Sprintf("sx2:retained:%d", i), fmt.Sprintf("exchange #%d (%s) changed after the next exchange was encoded and signed in the same process: it no longer serializes to the bytes it had (err=%v)", prev.i, prev.desc, werr), map[string]any{"case": prev.i, "exchange": prev.desc})
+			} else {
+				r.Eval("retained-exchange-stable")
+			}
+		}
+		{
+			var cur bytes.Buffer
+			if e.Write(&cur) == nil {
+				prev = &retained{i: i, desc: desc, e: e, file: append([]byte{}, cur.Bytes()...)}
+			}
 		}
 		times := []time.Time{spec.Date, spec.Date.Add(500 * time.Millisecond), spec.Date.Add(spec.Expires.Sub(spec.Date) / 2), spec.Expires}
 		var before []verdict
